@@ -49,7 +49,9 @@ func TestVerifC06Bind(t *testing.T) {
 	h.Close("one case = one node (2-24 CPUs, 1-2 sockets x 1-2 NUMA nodes x 1-4 cores x 1-2 threads) and 3-8 pods through the real " +
 		"Plugin.Reserve + Plugin.PreBind (all bind / exclusive policies, preferred or required, with or without a resource-spec " +
 		"annotation of their own), each bound object delivered to the real podEventHandler.OnUpdate; then Unreserve (bind failed), " +
-		"completion (phase Succeeded) or delete for some of them. non-trivial = at least two pods were reserved, bound and re-asserted")
+		"completion (phase Succeeded) or delete for some of them; then (round 6) a preemption dry run over the pods bound at that moment: 2-7 real " +
+		"Plugin.RemovePod / Plugin.AddPod steps on a preemptor's cycle state (every 6th case may AddPod a pod that was not removed), the preemptor's " +
+		"Filter + allocate after every step with a request around the room at the end of the walk. non-trivial = at least two pods were reserved, bound and re-asserted")
 }
 
 func c06BindCase(t *testing.T, h *vHarness, r *vRand) {
